@@ -282,7 +282,7 @@ def run(ctx):
     eng.so_path(VARIANT)
     eng.so_path("plain")
     done = 0
-    for job, r in pool.pmap_split(_work, len(_JOBS), 25, timeout=45, single_timeout=15):
+    for job, r in pool.pmap_split(_work, len(_JOBS), 25, timeout=45, single_timeout=15, max_failures=20000):
         if isinstance(r, pool.Crash) and r.kind == "skipped":
             ctx.exhaustive = False
             if "re-run-of-failed-chunks-capped" not in ctx.caps:
